@@ -150,12 +150,20 @@ pub fn sr_rr_spaces(tier: Tier, seed: u64) -> Vec<CfgSpace> {
         }
     }));
 
-    // (2c) block lists as patterns over two different blocks: every sequence of length 0..=6 over {A, B} (equal
-    // ends with a differing middle, runs of identical blocks, alternations), SR and RR
-    v.push(CfgSpace::new("sr-rr-block-patterns", 127 * 2, move |idx| {
+    // (2c) block lists as patterns (equal ends with a differing middle, runs of identical blocks, alternations, two
+    // blocks about the same source), SR and RR
+    v.push(CfgSpace::new("sr-rr-block-patterns", seq_count(4, 5) * 2, move |idx| {
+        // A, B: different sources; A+ / A-: the same source as A with a larger / smaller extended sequence number
+        // (two reports about one source are legal); every sequence of length 0..=5 over the four
         let (a, b) = (sentinel_rb(3, salt), sentinel_rb(17, salt ^ 0x0101_0101));
-        let seq = seq_decode(2, idx / 2);
-        let blocks: Vec<Rb> = seq.iter().map(|&k| if k == 0 { a.clone() } else { b.clone() }).collect();
+        let mut ap = a.clone();
+        ap.ext_seq = a.ext_seq.wrapping_add(5);
+        ap.jitter ^= 0x0F0F;
+        let mut am = a.clone();
+        am.ext_seq = a.ext_seq.wrapping_sub(5);
+        am.fraction ^= 0x55;
+        let seq = seq_decode(4, idx / 2);
+        let blocks: Vec<Rb> = seq.iter().map(|&k| [&a, &b, &ap, &am][k as usize].clone()).collect();
         if idx % 2 == 0 {
             Pkt::Sr { ssrc: 9, ntp: 8, rtp: 7, pc: 6, oc: 5, blocks, pad: 0 }
         } else {
@@ -727,6 +735,12 @@ pub fn rpsi_spaces(_tier: Tier, _seed: u64) -> Vec<CfgSpace> {
             .collect();
         Pkt::Fb { kind: Kind::Payload, sender: 0x5E4D_3C2B, media: 0x1A2B_3C4D, fci: Fci::Rpsi { pt: pts[c[2] as usize], data, overrun }, pad: PAD_EDGE[c[4] as usize] }
     }),
+    // every payload type 0..=127 (a value that reads like another constant of the crate must not matter)
+    CfgSpace::new("rpsi-every-payload-type", 128 * 2, |idx| {
+        let pt = (idx % 128) as u8;
+        let data = if idx < 128 { vec![0xC3] } else { vec![pt, pt | 0x80, 0x00] };
+        Pkt::Fb { kind: Kind::Payload, sender: 0x0000_00CE, media: 0x8000_00CE, fci: Fci::Rpsi { pt, data, overrun: 0 }, pad: 0 }
+    }),
     // ignored-bit counts above 8, and payload types above 127, on strings of 0..=6 bytes: not representable - the
     // builder must refuse them, and the round trip shows it if it does not
     CfgSpace::new("rpsi-out-of-range-ignored-bits-and-types", 7 * 24 * 3, |idx| {
@@ -842,6 +856,26 @@ pub fn unknown_spaces(tier: Tier, _seed: u64) -> Vec<CfgSpace> {
             let c = r.coords(idx);
             let n = (c[2] * 4) as usize;
             Pkt::Unknown { pt: pts[c[0] as usize], count: c[1] as u8, data: (0..n).map(|i| (i as u64 * 17 + idx) as u8).collect(), pad: pads[c[3] as usize] }
+        }),
+        // payloads that themselves begin with an RTCP header - of the packet's own type or another, with a length
+        // field that spans the payload exactly, one word less, or one word more (a packet nested in a packet is just
+        // payload)
+        CfgSpace::new("unknown-payload-that-looks-like-a-packet", 4 * 4 * 3 * 4 * 2, move |idx| {
+            let pt = [207u8, 192, 200, 255][(idx % 4) as usize];
+            let inner_pt = [pt, 203, 207, 0][((idx / 4) % 4) as usize];
+            let words = [1usize, 2, 5][((idx / 16) % 3) as usize];
+            let lf = match (idx / 48) % 4 {
+                0 => words - 1,
+                1 => words,
+                2 => words + 1,
+                _ => words.saturating_sub(2),
+            } as u16;
+            let pad = if idx / 192 == 0 { 0u8 } else { 4 };
+            let mut data = vec![0x80 | (idx % 32) as u8, inner_pt, (lf >> 8) as u8, lf as u8];
+            for i in 1..words {
+                data.extend_from_slice(&[0xA0 | i as u8, 1, 2, 3]);
+            }
+            Pkt::Unknown { pt, count: (idx % 32) as u8, data, pad }
         }),
         CfgSpace::new("unknown-large-payloads", nb * 3, move |idx| {
             let n = big[(idx % nb) as usize];
